@@ -24,7 +24,44 @@ CONFIGS = {
     "candid-value": (["-p", "candid", "--no-default-features", "--features", "value"],
                      ["candid.rlib.json"]),
     "principal-default": (["-p", "ic_principal"], ["ic_principal.rlib.json"]),
+    # the witness crate (/verif/witness, its own workspace, path-depends on the analysed tree): expands candid's
+    # macro_rules! type constructors; optional third element = options (run there, its own member list)
+    "witness": ([], ["witness.rlib.json"], {"witness": True, "members": ["witness"]}),
 }
+WITNESS_SRC = os.path.join(VERIF, "witness")
+
+
+def witness_dir(repo=None, cache=None):
+    """Directory to run cargo in for the witness crate: /verif/witness itself when the analysed tree is /repo;
+    for any other tree (VERIF_REPO scratch copies) a mirror under <cache>/witness-src whose path dependencies
+    point into that tree and whose Cargo.lock is that tree's."""
+    repo = os.path.abspath(repo or REPO)
+    cache = cache or CACHE
+    if repo == "/repo":
+        return WITNESS_SRC
+    dst = os.path.join(cache, "witness-src")
+    os.makedirs(os.path.join(dst, "src"), exist_ok=True)
+    toml = open(os.path.join(WITNESS_SRC, "Cargo.toml")).read().replace('"/repo/', '"' + repo + '/')
+
+    def put(path, text):
+        if not os.path.exists(path) or open(path).read() != text:
+            with open(path, "w") as fh:
+                fh.write(text)
+    put(os.path.join(dst, "Cargo.toml"), toml)
+    for f in os.listdir(os.path.join(WITNESS_SRC, "src")):
+        put(os.path.join(dst, "src", f), open(os.path.join(WITNESS_SRC, "src", f)).read())
+    if not os.path.exists(os.path.join(dst, "Cargo.lock")):
+        shutil.copy(os.path.join(repo, "Cargo.lock"), os.path.join(dst, "Cargo.lock"))
+    return dst
+
+
+def witness_hash():
+    h = hashlib.sha256()
+    for f in ["Cargo.toml"] + sorted(os.path.join("src", x) for x in os.listdir(os.path.join(WITNESS_SRC, "src"))):
+        h.update(f.encode() + b"\0")
+        with open(os.path.join(WITNESS_SRC, f), "rb") as fh:
+            h.update(fh.read())
+    return h.hexdigest()
 
 
 def env_base():
@@ -93,20 +130,23 @@ def extract(cfg="all", repo=None, cache=None, verbose=True):
     ensure_driver(verbose)
     out = facts_dir(cfg, repo, cache)
     os.makedirs(out, exist_ok=True)
-    want = tree_hash(repo)
+    opts = CONFIGS[cfg][2] if len(CONFIGS[cfg]) > 2 else {}
+    want = tree_hash(repo) + (witness_hash() if opts.get("witness") else "")
     stamp = os.path.join(out, "HASH")
     lock = open(os.path.join(cache, "extract.lock"), "w")
     fcntl.flock(lock, fcntl.LOCK_EX)
     try:
         if os.path.exists(stamp) and open(stamp).read().strip() == want:
             return out
-        args, expected = CONFIGS[cfg]
+        args, expected = CONFIGS[cfg][:2]
+        members = opts.get("members", MEMBERS)
+        cwd = witness_dir(repo, cache) if opts.get("witness") else repo
         target = os.path.join(cache, "target")
         # cargo's freshness cache would skip the wrapper: drop the members' fingerprints
         fp = os.path.join(target, "debug", ".fingerprint")
         if os.path.isdir(fp):
             for d in os.listdir(fp):
-                if any(d.startswith(m + "-") or d.startswith(m.replace("-", "_") + "-") for m in MEMBERS):
+                if any(d.startswith(m + "-") or d.startswith(m.replace("-", "_") + "-") for m in members):
                     shutil.rmtree(os.path.join(fp, d), ignore_errors=True)
         for f in expected:
             try:
@@ -124,7 +164,7 @@ def extract(cfg="all", repo=None, cache=None, verbose=True):
         t0 = time.time()
         if verbose:
             print(f"[extract] cargo +nightly check {' '.join(args)} (cfg={cfg})", file=sys.stderr)
-        r = subprocess.run(["cargo", "+nightly", "check", "--offline"] + args, cwd=repo, env=e,
+        r = subprocess.run(["cargo", "+nightly", "check", "--offline"] + args, cwd=cwd, env=e,
                            stdout=subprocess.PIPE, stderr=subprocess.STDOUT, text=True)
         if r.returncode != 0:
             print(r.stdout[-6000:], file=sys.stderr)
